@@ -106,6 +106,8 @@ pub fn run_history(st: &mut CSt, sp: &Space, index: u64) {
     let mut by_clock = CongressSampleBuilder::default()
         .target_entries_per_interval(TARGET)
         .interval(Duration::from_secs(3600))
+        // (without the duplicate-name validation, as in a build without debug assertions)
+        .validate_groups(false)
         .build_with_rng(Recorder(rec2.clone()), script2.clone());
     // The sampler starts its first interval at the first `format` call whose `Instant::now()` is
     // strictly later than the instant of construction, by running one rate update. Make sure that
@@ -141,12 +143,12 @@ pub fn run_history(st: &mut CSt, sp: &Space, index: u64) {
                 };
                 script.set_f32_draw(k, (j * 37) & 0xFF);
                 let before = rec.calls.get();
-                let res = sampler.format(&IdEntry { id, group: Some(GROUP_NAMES[g]) }, &mut sink);
+                let res = sampler.format(&IdEntry { id, group: Some(GROUP_NAMES[g]), flip: id % 3 == 1 }, &mut sink);
                 let reached = rec.calls.get() - before;
                 if lockstep {
                     script2.set_f32_draw(k, (j * 37) & 0xFF);
                     let before2 = rec2.calls.get();
-                    let _ = by_clock.format(&IdEntry { id, group: Some(GROUP_NAMES[g]) }, &mut sink);
+                    let _ = by_clock.format(&IdEntry { id, group: Some(GROUP_NAMES[g]), flip: id % 3 == 1 }, &mut sink);
                     let reached2 = rec2.calls.get() - before2;
                     // the sampler sums over a hash map of groups: two instances may differ in the last
                     // bits of a rate (iteration order), so rates are compared with the relative slack
@@ -205,7 +207,8 @@ pub fn run_history(st: &mut CSt, sp: &Space, index: u64) {
         let mut now: [Option<(f32, f32, u8)>; 3] = [None; 3];
         for (group, avg, rate, idle) in sampler.__verif_group_state() {
             let slot = match group.as_slice() {
-                [(k, v)] if k == "group" => GROUP_NAMES.iter().position(|n| n == v),
+                // (the sampler keeps the pairs of a group sorted by name)
+                [(k, v), (k2, v2)] if k == "group" && k2 == "z_op" && v2 == "x" => GROUP_NAMES.iter().position(|n| n == v),
                 _ => None,
             };
             match slot {
